@@ -27,8 +27,8 @@ def runAlias (payload : String) : String × String × String :=
     let n := a.erase
     let cv (s : Stk) := ",".intercalate (s.xs.map (fun v => b01 (convertStack v).isSome ++ b01 (convertCondition v).isSome))
     -- model: each tree observed through the model; spec: the alias tree must look exactly like its native twin
-    (s!"A\{{obsAliasTree a}} N\{{obsAliasTree n}} Qokok V{cv a}",
-     s!"A\{{obsAliasTree n}} N\{{obsAliasTree n}} Qokok V{cv n}", "")
+    (s!"A\{{obsAliasTree a}} N\{{obsAliasTree n}} Qokok V{cv a} D1",
+     s!"A\{{obsAliasTree n}} N\{{obsAliasTree n}} Qokok V{cv n} D1", "")
   | _ => ("BADCASE", "BADCASE", "")
 
 end Stackage.Driver
